@@ -66,7 +66,7 @@ func (g *gen) genTables() {
 			tb.PK = 0
 		}
 		for i := range tb.Types {
-			if i != tb.PK && g.r.Chance(1, 5) {
+			if i != tb.PK && tb.Types[i] != "dec" && g.r.Chance(1, 5) { // indexed DECIMAL columns: C03's subject (<> 1.50 over an index is wrong)
 				tb.Idx = append(tb.Idx, i)
 			}
 		}
